@@ -25,7 +25,7 @@ class Q(AV):
         self.weighted = weighted
 
     def __repr__(self):
-        return {"inv": "Inv", "unk": "Unknown", "top": "NotModelled"}.get(self.kind, f"{self.kind.title()}({float(self.q):+g})")
+        return {"inv": "Inv", "unk": "Unknown", "top": "NotModelled", "split": "SplitPower"}.get(self.kind, f"{self.kind.title()}({float(self.q):+g})")
 
     def __eq__(self, o):
         return isinstance(o, Q) and (self.kind, self.q) == (o.kind, o.q)
@@ -57,6 +57,8 @@ class ChargeDomain(TensorDomain):
         w = a.weighted or b.weighted
         if a.kind == "unk" or b.kind == "unk":
             return Q("unk", weighted=w)
+        if a.kind == "split" or b.kind == "split":
+            return Q("split", weighted=w)
         ca, cb = _const(raw[0]), _const(raw[1])
         if op in ("add", "sub"):
             s = 1 if op == "add" else -1
@@ -88,6 +90,10 @@ class ChargeDomain(TensorDomain):
                 return Q(weighted=w)
             if a.kind == "mul" and cb is not None:
                 return Q("mul", a.q * cb, w)
+            if a.kind == "mul" and b.kind == "inv":
+                # x ** e with x rescaled by the gauge and e an invariant that is not a constant: rescaled by exp(q e m) - the charge is not a number.
+                # Invariance of what is built from it rests on the cancellation of such powers (exact over the reals, not in floating point)
+                return Q("split", weighted=w)
             return Q("unk", weighted=w)
         if op in ("cmp", "and", "or", "mod"):
             # comparisons with 0 are invariant under positive scaling; anything else must be invariant itself
@@ -110,6 +116,8 @@ class ChargeDomain(TensorDomain):
             return Q()  # whatever the values of the argument
         if x.kind == "unk":
             return Q("unk", weighted=w)
+        if x.kind == "split":
+            return Q("split", weighted=w)
         if fn == "exp":
             return Q("mul", x.q, w) if x.kind == "add" else (Q(weighted=w) if x.kind == "inv" else Q("unk", weighted=w))
         if fn == "log":
@@ -233,11 +241,11 @@ class ChargeDomain(TensorDomain):
         return Q(weighted=node.kind == "DataVariable")
 
 
-def _has_top(v, depth=0):
+def _has_top(v, depth=0, kind="top"):
     if isinstance(v, Q):
-        return v.kind == "top"
+        return v.kind == kind
     if isinstance(v, (list, tuple)) and depth < 3:
-        return any(_has_top(x, depth + 1) for x in v)
+        return any(_has_top(x, depth + 1, kind) for x in v)
     return False  # (mappings are not searched: the state mapping handed to update rules holds every node, evaluated or not)
 
 
@@ -245,7 +253,12 @@ def _top_strict(fn):
     def wrapped(self, *a, **k):
         if _has_top(a) or _has_top(list(k.values())):
             return Q("top")
-        return fn(self, *a, **k)
+        r = fn(self, *a, **k)
+        # a value built from a split power stays one (unless the operation discards its argument, or something is definitely non-covariant)
+        if isinstance(r, Q) and r.kind == "unk" and (_has_top(a, kind="split") or _has_top(list(k.values()), kind="split")) \
+                and not (_has_top(a, kind="unk") or _has_top(list(k.values()), kind="unk")):
+            return Q("split", weighted=r.weighted)
+        return r
     wrapped.__name__ = fn.__name__
     return wrapped
 
